@@ -324,6 +324,7 @@ class Sim:
                 return
             try:
                 if self.error is None:
+                  with np.errstate(divide="raise"):  # numba raises on float division by zero (threads do not inherit errstate)
                     if queue is None:
                         for it in work[w]:
                             self.cur_iter[w] = (region, it)
@@ -816,9 +817,14 @@ class KernelSim:
         args = tuple(wrap(a) for a in args)
         kwargs = {k: wrap(v) for k, v in kwargs.items()}
         try:
-            res = g[self.name](*args, **kwargs)
+            # numba's default error model raises ZeroDivisionError for a float division by zero; numpy scalars would
+            # return inf with a warning: make the simulated kernel raise as well
+            with np.errstate(divide="raise"):
+                res = g[self.name](*args, **kwargs)
         except (HarnessError, KernelError):
             raise
+        except FloatingPointError as e:
+            raise KernelError(f"ZeroDivisionError: {e}") from e
         except Abort:
             raise sim.error or HarnessError("aborted")
         except Exception as e:
